@@ -293,6 +293,9 @@ ALL_OPS = ["SetValue", "SetSym", "SetRow", "SetCol", "SetDiag", "SetDiagConst", 
 
 def run(tier):
     ck = Check(PID, "model_checking", tier)
+    alt = os.environ.get("VERIF_C11_KNOWN")      # alternative list of known findings (trial of a repaired tree)
+    if alt:
+        ck.known = [e for e in json.load(open(alt)).get("findings", []) if e.get("property") == PID and e.get("status") == "known"]
     vlib.build_lib()
     exe = vlib.build_harness("matrix_run", extra_flags=["-fopenmp"])
     quick = tier == "quick"
